@@ -783,24 +783,21 @@ impl Default for Entry {
 
 impl PartialOrd for Entry {
     fn partial_cmp(&self, other: &Self) -> Option<std::cmp::Ordering> {
+        // Lexicographic; an entry sorts before the same entry with further alternatives.
+        // (Both iterators advance on every turn: what they returned must not be dropped.)
         let mut rels_a = self.relations();
         let mut rels_b = other.relations();
-        while let (Some(a), Some(b)) = (rels_a.next(), rels_b.next()) {
-            match a.cmp(&b) {
-                std::cmp::Ordering::Equal => continue,
-                x => return Some(x),
+        loop {
+            match (rels_a.next(), rels_b.next()) {
+                (Some(a), Some(b)) => match a.cmp(&b) {
+                    std::cmp::Ordering::Equal => continue,
+                    x => return Some(x),
+                },
+                (Some(_), None) => return Some(std::cmp::Ordering::Greater),
+                (None, Some(_)) => return Some(std::cmp::Ordering::Less),
+                (None, None) => return Some(std::cmp::Ordering::Equal),
             }
         }
-
-        if rels_a.next().is_some() {
-            return Some(std::cmp::Ordering::Greater);
-        }
-
-        if rels_b.next().is_some() {
-            return Some(std::cmp::Ordering::Less);
-        }
-
-        Some(std::cmp::Ordering::Equal)
     }
 }
 
